@@ -232,14 +232,24 @@ class Unit:
 
 # ---------------------------------------------------------------- running CBMC
 def sh(cmd, timeout, cwd=None, mem_kb=MEM_KB):
+    """run a shell command in its own process group; on timeout the whole group (cbmc AND its solver child) is killed"""
+    import signal
     t0 = time.time()
+    p = subprocess.Popen(['bash', '-c', 'ulimit -v %d; exec %s' % (mem_kb, cmd)], cwd=cwd, stdout=subprocess.PIPE,
+                         stderr=subprocess.PIPE, text=True, errors='replace', start_new_session=True)
     try:
-        p = subprocess.run(['bash', '-c', 'ulimit -v %d; exec %s' % (mem_kb, cmd)], cwd=cwd, stdout=subprocess.PIPE,
-                           stderr=subprocess.PIPE, timeout=timeout, text=True, errors='replace')
-        return p.returncode, p.stdout, p.stderr, time.time() - t0
-    except subprocess.TimeoutExpired as e:
-        # make sure children are gone
-        return -9, (e.stdout or b'').decode(errors='replace') if isinstance(e.stdout, bytes) else (e.stdout or ''), 'TIMEOUT', time.time() - t0
+        out, err = p.communicate(timeout=timeout)
+        return p.returncode, out, err, time.time() - t0
+    except subprocess.TimeoutExpired:
+        try:
+            os.killpg(p.pid, signal.SIGKILL)
+        except ProcessLookupError:
+            pass
+        try:
+            out, err = p.communicate(timeout=10)
+        except Exception:
+            out, err = '', ''
+        return -9, out or '', 'TIMEOUT', time.time() - t0
 
 
 SOLVERS = {
